@@ -3,13 +3,13 @@
 package vkit
 
 import (
-	"strings"
 	"encoding/json"
 	"fmt"
 	"hash/fnv"
 	"os"
 	"runtime/debug"
 	"sort"
+	"strings"
 	"sync"
 	"testing"
 )
